@@ -24,7 +24,7 @@ ASSUMPTIONS = [
     '--list-tests shows exactly what a run would select (that agreement is C03\'s business)',
 ]
 BOUND = {
-    'quick': 'depth <=2 (47 + 1128 + 27072 chains) x 27 option vectors; all 2x30x47x47 sibling pairs x 8 option vectors',
+    'quick': 'depth <=2 (47 + 1128 + 27072 chains) x 30 option vectors (each also given as wrapper defaults and split between defaults and command line); all 2x30x47x47 sibling pairs x 8 option vectors',
     'thorough': 'depth <=2 x all 13x10 option vectors; depth 3 (649728 chains) x 27 vectors',
 }
 CHUNK = 1
@@ -43,11 +43,11 @@ LVL_OPTS = [[], ['--at-level=-1'], ['--at-level', '0'], ['--at-level', '1'],
             ['--only-level', '0'], ['--only-level', '1'], ['--only-level', '2'],
             ['--all', '--at-level', '1'], ['--only-level', '2', '--all'],
             ['--only-level', '1', '--at-level', '3']]
-UNIT_OPTS = [[], ['-u'], ['-f'], ['-u', '-f'], ['--layer', r'vtw\.tests\.L1$'],
+UNIT_OPTS = [[], ['-u'], ['-f'], ['-u', '-f'], ['-f', '-u'], ['--layer', r'vtw\.tests\.L1$'],
              ['--layer', r'!vtw\.tests\.L1$'], ['--layer', 'UnitTests$'],
              ['-f', '--layer', '!L2'], ['-u', '--layer', 'L1'],
              ['-f', '--layer', '.']]
-MIXED = [['--all', '-f'], ['--only-level', '2', '-u'], ['--at-level', '2', '--layer', 'L2'],
+MIXED = [['-f', '--layer', 'L1', '-u'], ['-u', '--all', '-f'], ['--all', '-f'], ['--only-level', '2', '-u'], ['--at-level', '2', '--layer', 'L2'],
          ['--at-level', '0', '-u', '-f']]
 
 
@@ -105,6 +105,10 @@ def vectors(tier, depth):
 
 
 def cases(tier, seed):
+    # modules discovered on disk, one of them without test_suite() and with
+    # ordinary globals called `layer` / `level` (shared with C03)
+    for fi in (0, 1):
+        yield ['disk', 'one', fi]
     depths = [0, 1, 2, 's'] if tier == 'quick' else [0, 1, 2, 's', 3]
     for d in depths:
         vs = vectors(tier, d) if d != 's' else SIB_VECTORS
@@ -267,6 +271,12 @@ def _listing(text):
 
 
 def run_case(case):
+    if case[0] == 'disk':
+        from vt.props import c03
+        viol = c03.run_disk_case(case[1], case[2])
+        for v in viol:
+            v['sig'] = {'argv': 'disk', 'ux': False}
+        return {'evals': 2, 'nontrivial': 2, 'violations': viol, 'outcome': 'disk'}
     depth, b, argv = case
     spec, info = build_block(depth, b)
     res = runrt.run_world(spec, ['--list-tests'] + list(argv), probe=False)
@@ -316,7 +326,15 @@ def run_case(case):
         r2 = runrt.run_world(spec, ['--list-tests'], probe=False, defaults=list(argv))
         r3 = runrt.run_world(spec, ['--list-tests'] + list(argv), probe=False,
                              defaults=['--at-level', '1', '--layer', '.'] if '--layer' not in argv and '--only-level' not in argv and '--all' not in argv and not any(a.startswith('--at-level') for a in argv) else [])
-        for rr, what in ((r2, 'as defaults'), (r3, 'over neutral defaults')):
+        extra = []
+        # the vector split between wrapper defaults and command line, at every
+        # option boundary
+        toks = list(argv)
+        cuts = [i for i in range(1, len(toks)) if toks[i].startswith('-')]
+        for cpos in cuts:
+            rs = runrt.run_world(spec, ['--list-tests'] + toks[cpos:], probe=False, defaults=toks[:cpos])
+            extra.append((rs, 'split: defaults %s + command line %s' % (toks[:cpos], toks[cpos:])))
+        for rr, what in [(r2, 'as defaults'), (r3, 'over neutral defaults')] + extra:
             if rr.escaped:
                 viol.append({'clause': 'run_aborted', 'sig': dict(sig, via=what), 'detail': rr.escaped_tb})
             elif _listing(rr.text) != got:
